@@ -117,6 +117,22 @@ def run(ctx):
                 fid = rng.choice(["obj", "obj", 0, 1, 2]) if fam == "StronginC3" else "obj"
                 rec.eval(k, rng.choice(pools[(fam, m)]), fid, reuse=rng.random() < 0.35, holder=rng.choice(["fresh", "fresh", "reused", "prefilled"]))
         recs.append(rec)
+    # problems with several functions (StronginC3: objective + 3 constraints): every function at every pool point, in several
+    # orders, on two sibling instances - a value must not depend on which OTHER function was evaluated at the point before
+    fids = ["obj", 0, 1, 2]
+    for rep in range(2 if qk else 8):
+        rec = ProblemRec("all-functions")
+        rec.construct("StronginC3", 0, with_meta=False)
+        rec.construct("StronginC3", 0, with_meta=False)
+        if ("StronginC3", 0) not in pools:
+            pools[("StronginC3", 0)] = point_pool("StronginC3", 0, rec.insts[-1][2], 4, ctx.seed)
+        for pt in pools[("StronginC3", 0)]:
+            for k in (1, 2):
+                order = fids[:]
+                rng.shuffle(order)
+                for fid in order:
+                    rec.eval(k, pt, fid, reuse=rng.random() < 0.3, holder=rng.choice(["fresh", "reused", "prefilled"]))
+        recs.append(rec)
     fails, stats = validate(ctx, recs, "c15")
     for f in fails:
         if f["clause"] in FAMILY:
